@@ -438,12 +438,24 @@ func isRowid(tableConstraint bool, typ string, dir sql.SortOrder) bool {
 // See https://sqlite.org/datatype3.html chapter "3.1. Determination Of Column
 // Affinity".
 func defaultWithAffinity(typ string, v interface{}) interface{} {
+	// DEFAULT TRUE and DEFAULT FALSE are 1 and 0, which stay numbers in a
+	// column with text affinity
+	b, isBool := v.(bool)
+	if isBool {
+		v = int64(0)
+		if b {
+			v = int64(1)
+		}
+	}
 	t := upperASCII(typ)
 	has := func(s string) bool { return strings.Contains(t, s) }
 	switch {
 	case has("INT"):
 		return numericAffinity(v, false)
 	case has("CHAR"), has("CLOB"), has("TEXT"):
+		if isBool {
+			return v
+		}
 		switch n := v.(type) {
 		case int64:
 			return strconv.FormatInt(n, 10)
